@@ -394,6 +394,9 @@ func (r *Run) Finish(rule string, exhaustive bool, distinct int64, floorEvals, f
 	if distinct < floorDistinct {
 		r.Inconclusive("observed %d distinct non-trivial cases, below the floor %d", distinct, floorDistinct)
 	}
+	if a := addedDimensions[r.ID]; a != "" {
+		rule += " | Added later (DESIGN 9.3-9.7): " + a
+	}
 	r.mu.Lock()
 	cov := map[string]interface{}{
 		"evaluations":         evals,
